@@ -146,7 +146,7 @@ Lemma A4_assoc_app k a b :
   assoc k (a ++ b) = match assoc k a with Some v => Some v | None => assoc k b end.
 Proof.
   unfold assoc. induction a as [|x a IH]; simpl; auto.
-  destruct (String.eqb k (fst x)); simpl; auto.
+  destruct (String.eqb k _); simpl; auto.
 Qed.
 
 Lemma A4_inb_In k ks : inb k ks = true <-> In k ks.
@@ -335,6 +335,251 @@ Proof.
       apply (HG _ E).
     + apply A4_assoc_None_notin in E. rewrite Hfst in E.
       apply A4_notin_assoc_None in E.
-      pose proof (A4_getk_all _ _ k HK) as G. rewrite A4_omapM_cons, E in G. simpl in G.
+      pose proof (A4_getk_all _ _ k HK) as G. rewrite A4_omapM_cons, E in G. cbn [obind] in G.
       destruct G as [e G]. exists e. rewrite G. reflexivity.
+Qed.
+
+(* ================================================================== DIntersperse *)
+
+Definition A4_pick (e : nat) := fix pick (l : list ds) (di : nat) : res val :=
+  match l, di with
+  | [], _ => Err (lib EIndex)
+  | d :: _, O => get_i d (Z.of_nat e)
+  | _ :: t, S di' => pick t di'
+  end.
+
+Lemma A4_get_i_intersperse o l i :
+  get_i (DIntersperse o l) i = (do de <- py_nth o i; A4_pick (snd de) l (fst de)).
+Proof. reflexivity. Qed.
+
+Definition A4_kwalk (k : key) := fix walk (l : list ds) : res val :=
+  match l with
+  | [] => Err (lib EKey)
+  | d :: t => do ks <- keys_ d; if inb k ks then get_k d k else walk t
+  end.
+
+Lemma A4_kwalk_cons k d t :
+  A4_kwalk k (d :: t) = (do ks <- keys_ d; if inb k ks then get_k d k else A4_kwalk k t).
+Proof. reflexivity. Qed.
+
+Lemma A4_get_k_intersperse o l k :
+  get_k (DIntersperse o l) k = (do _u <- keys_ (DIntersperse o l); A4_kwalk k l).
+Proof. reflexivity. Qed.
+
+Lemma A4_nth_zeros {A} (ts : list A) : forall di, nth di (map (fun _ => 0%nat) ts) 0%nat = 0%nat.
+Proof. induction ts; destruct di; simpl; auto. Qed.
+
+Lemma A4_nth_lengths {A} (ts : list (list A)) di :
+  nth di (map (@length A) ts) 0%nat = length (nth di ts []).
+Proof. exact (map_nth (@length A) ts [] di). Qed.
+
+Lemma A4_valid_merge_cons di ei rest cur lens :
+  valid_merge ((di, ei) :: rest) cur lens = true ->
+  (di < length lens)%nat /\ ei = nth di cur 0%nat /\ (ei < nth di lens 0)%nat /\
+  valid_merge rest (bump cur di) lens = true.
+Proof.
+  simpl. rewrite !andb_true_iff. rewrite !Nat.ltb_lt, Nat.eqb_eq. tauto.
+Qed.
+
+Lemma A4_nth_bump_neq cur : forall di dj, di <> dj ->
+  nth di (bump cur dj) 0%nat = nth di cur 0%nat.
+Proof.
+  induction cur as [|c cur IH]; intros di dj H; destruct dj; simpl; auto.
+  - destruct di; auto; congruence.
+  - destruct di; auto.
+Qed.
+
+Lemma A4_nth_bump_le cur : forall di, (nth di (bump cur di) 0 <= S (nth di cur 0))%nat.
+Proof. induction cur as [|c cur IH]; intros [|di]; simpl; auto; lia. Qed.
+
+Lemma A4_valid_merge_complete lens : forall o cur, valid_merge o cur lens = true ->
+  forall di e, (nth di cur 0 <= e < nth di lens 0)%nat -> In (di, e) o.
+Proof.
+  induction o as [|[dj ej] o IH]; intros cur Hv di e Hr.
+  - simpl in Hv. apply A4_list_eqb_nat in Hv. subst. lia.
+  - apply A4_valid_merge_cons in Hv. destruct Hv as (Hd & He & Hlt & Hv).
+    destruct (Nat.eq_dec di dj) as [->|Hne].
+    + destruct (Nat.eq_dec e ej) as [->|Hne']; [left; auto|].
+      right. apply (IH _ Hv). pose proof (A4_nth_bump_le cur dj). lia.
+    + right. apply (IH _ Hv). rewrite A4_nth_bump_neq; auto.
+Qed.
+
+Lemma A4_nth_error_part {A} (ts : list (list A)) di ei (x : A) :
+  nth_error (nth di ts []) ei = Some x -> (di < length ts)%nat.
+Proof.
+  intros H. destruct (Nat.lt_ge_cases di (length ts)) as [|Hge]; auto.
+  rewrite (nth_overflow ts [] Hge) in H. destruct ei; discriminate.
+Qed.
+
+Lemma A4_nth_error_map_nth {A B} (f : list A -> B) (ts : list (list A)) di :
+  (di < length ts)%nat -> nth_error (map f ts) di = Some (f (nth di ts [])).
+Proof. intros H. rewrite nth_error_map, (nth_error_nth' ts [] H). reflexivity. Qed.
+
+Lemma A4_walk_ok (g : key * val -> val) (ts : list (list (key * val))) : forall o cur t,
+  valid_merge o cur (map (@length _) ts) = true ->
+  omapM (fun de => nth_error (nth (fst de) ts []) (snd de)) o = Some t ->
+  intersperse_walk (map (fun t => (map g t, End)) ts) o cur = (map g t, End).
+Proof.
+  induction o as [|[di ei] o IH]; intros cur t Hv Ho.
+  - simpl in Ho. inversion Ho. reflexivity.
+  - apply A4_valid_merge_cons in Hv. destruct Hv as (Hd & He & Hlt & Hv).
+    rewrite A4_omapM_cons in Ho. simpl fst in Ho; simpl snd in Ho.
+    destruct (nth_error (nth di ts []) ei) as [kv|] eqn:Hn; simpl in Ho; try discriminate.
+    destruct (omapM _ o) as [t'|] eqn:Ho'; simpl in Ho; try discriminate.
+    inversion Ho; subst t. clear Ho.
+    rewrite map_length in Hd.
+    simpl intersperse_walk.
+    rewrite (A4_nth_error_map_nth (A:=key * val) _ ts di Hd). simpl.
+    rewrite <- He, nth_error_map, Hn. simpl.
+    rewrite (IH _ _ Hv eq_refl). reflexivity.
+Qed.
+
+Lemma A4_rows_incl (ts : list (list (key * val))) o t :
+  omapM (fun de => nth_error (nth (fst de) ts []) (snd de)) o = Some t ->
+  forall x, In x t -> In x (concat ts).
+Proof.
+  intros Ho x Hx. apply A4_omapM_Forall2 in Ho.
+  destruct (A4_Forall2_In_r _ _ _ _ Ho Hx) as ([di ei] & _ & Hn). simpl in Hn.
+  apply in_concat. exists (nth di ts []). split.
+  - apply nth_In. eapply A4_nth_error_part; eauto.
+  - eapply nth_error_In; eauto.
+Qed.
+
+Lemma A4_rows_complete (ts : list (list (key * val))) o t :
+  valid_merge o (map (fun _ => 0%nat) ts) (map (@length _) ts) = true ->
+  omapM (fun de => nth_error (nth (fst de) ts []) (snd de)) o = Some t ->
+  forall x, In x (concat ts) -> In x t.
+Proof.
+  intros Hv Ho x Hx. apply A4_omapM_Forall2 in Ho.
+  apply in_concat in Hx. destruct Hx as (td & Htd & Hx).
+  destruct (In_nth _ _ [] Htd) as (di & Hdi & <-).
+  destruct (In_nth_error _ _ Hx) as (e & He).
+  assert (Hin : In (di, e) o).
+  { apply (A4_valid_merge_complete _ _ _ Hv).
+    rewrite A4_nth_zeros, A4_nth_lengths.
+    split; [lia|]. apply nth_error_Some. congruence. }
+  destruct (A4_Forall2_In_l _ _ _ _ Ho Hin) as (b & Hb & Hn). simpl in Hn.
+  congruence.
+Qed.
+
+Lemma A4_pick_ok l ts : Forall2 agrees l ts ->
+  forallb indexable l = true -> forallb ikeyed l = true ->
+  forall di ei kv, nth_error (nth di ts []) ei = Some kv -> A4_pick ei l di = Ok (snd kv).
+Proof.
+  induction 1 as [|d t l ts Ha _ IH]; simpl forallb; intros Hix Hik di ei kv Hn.
+  - destruct di; simpl in Hn; destruct ei; discriminate.
+  - apply andb_true_iff in Hix. apply andb_true_iff in Hik.
+    destruct Hix as [Hix1 Hix2], Hik as [Hik1 Hik2]. destruct di; simpl in Hn.
+    + change (A4_pick ei (d :: l) 0) with (get_i d (Z.of_nat ei)).
+      destruct (ag_idx _ _ Ha Hix1 Hik1) as [_ G]. rewrite G.
+      apply A4_py_nth_of_nat. unfold vals. rewrite nth_error_map, Hn. reflexivity.
+    + change (A4_pick ei (d :: l) (S di)) with (A4_pick ei l di). eauto.
+Qed.
+
+Lemma A4_kwalk_spec k l ts : Forall2 A4_kagrees l ts ->
+  A4_kwalk k l = match assoc k (concat ts) with Some v => Ok v | None => Err (lib EKey) end.
+Proof.
+  induction 1 as [|d t l ts [Ha Hk] _ IH].
+  - reflexivity.
+  - rewrite A4_kwalk_cons, Hk. simpl concat. rewrite A4_assoc_app. simpl bind.
+    pose proof (ag_getk _ _ Ha _ Hk k) as G.
+    destruct (assoc k t) as [v|] eqn:E.
+    + apply A4_assoc_Some_In in E.
+      assert (Hi : inb k (map fst t) = true)
+        by (apply A4_inb_In, in_map_iff; exists (k, v); auto).
+      rewrite Hi. exact G.
+    + apply A4_assoc_None_notin in E.
+      destruct (inb k (map fst t)) eqn:Hi; [apply A4_inb_In in Hi; contradiction|].
+      exact IH.
+Qed.
+
+Lemma A4_intersperse_keys (ts : list (list (key * val))) o t :
+  omapM (fun de => nth_error (nth (fst de) ts []) (snd de)) o = Some t ->
+  mapM (fun '(di, ei) => match nth_error (map (map fst) ts) di with
+                         | Some ks => nth_key ks ei
+                         | None => Err (lib EIndex) end) o = Ok (map fst t).
+Proof.
+  revert t; induction o as [|[di ei] o IH]; intros t Ho.
+  - simpl in Ho. inversion Ho. reflexivity.
+  - rewrite A4_omapM_cons in Ho. simpl fst in Ho; simpl snd in Ho.
+    destruct (nth_error (nth di ts []) ei) as [kv|] eqn:Hn; simpl in Ho; try discriminate.
+    destruct (omapM _ o) as [t'|] eqn:Ho'; simpl in Ho; try discriminate.
+    inversion Ho; subst t. clear Ho.
+    rewrite A4_mapM_cons, (IH _ eq_refl).
+    pose proof (A4_nth_error_part _ _ _ _ Hn) as Hd.
+    rewrite (A4_nth_error_map_nth (A:=key * val) _ ts di Hd).
+    unfold nth_key. rewrite nth_error_map, Hn. reflexivity.
+Qed.
+
+Lemma A4_intersperse_keys_inv o l ts t ks :
+  Forall2 agrees l ts ->
+  omapM (fun de => nth_error (nth (fst de) ts []) (snd de)) o = Some t ->
+  keys_ (DIntersperse o l) = Ok ks ->
+  Forall2 A4_kagrees l ts /\ ks = map fst t /\ functional t.
+Proof.
+  intros HA Ht Hks. simpl in Hks.
+  destruct (mapM keys_ l) as [kss|] eqn:Hkss; simpl in Hks; try discriminate.
+  destruct (A4_kagrees_of_mapM _ _ HA _ Hkss) as [HK ->].
+  rewrite (A4_intersperse_keys _ _ _ Ht) in Hks. simpl in Hks.
+  unfold unique_keys in Hks.
+  destruct (nodupb (map fst t)) eqn:Hnd; try discriminate.
+  inversion Hks; subst ks.
+  repeat split; auto. apply A4_NoDup_functional, A4_nodupb_NoDup; auto.
+Qed.
+
+Lemma stage_intersperse o l : Forall stage_ok l -> stage_ok (DIntersperse o l).
+Proof.
+  intros HF Hwf t Ht. simpl in Hwf. simpl in Ht.
+  destruct (omapM tbl l) as [ts|] eqn:Hts; simpl in Ht; try discriminate.
+  destruct (valid_merge o _ _) eqn:Hv; try discriminate.
+  pose proof (A4_parts_agree _ HF Hwf _ Hts) as HA.
+  assert (Hlen : length o = length t).
+  { apply A4_omapM_Forall2, A4_Forall2_length in Ht. auto. }
+  assert (Hz : map (fun _ => 0%nat) l = map (fun _ => 0%nat) ts).
+  { clear -HA; induction HA; simpl; congruence. }
+  constructor.
+  - change (iter_ false (DIntersperse o l))
+      with (intersperse_walk (map (iter_ false) l) o (map (fun _ => 0%nat) l)).
+    assert (Hm : map (iter_ false) l = map (fun t => (map snd t, End)) ts).
+    { clear -HA. induction HA as [|d t l ts Ha _ IH]; simpl; auto.
+      rewrite IH, (ag_iter _ _ Ha). reflexivity. }
+    rewrite Hm, Hz. apply A4_walk_ok; auto.
+  - intros Hkd. simpl in Hkd.
+    change (iter_ true (DIntersperse o l))
+      with (intersperse_walk (map (iter_ true) l) o (map (fun _ => 0%nat) l)).
+    assert (Hm : map (iter_ true) l =
+                 map (fun t => (map (fun kv => pair_of (fst kv) (snd kv)) t, End)) ts).
+    { clear -HA Hkd. induction HA as [|d t l ts Ha _ IH]; simpl; auto.
+      simpl in Hkd. apply andb_true_iff in Hkd. destruct Hkd as [K1 K2].
+      rewrite (IH K2), (ag_iterk _ _ Ha K1). reflexivity. }
+    rewrite Hm, Hz. apply A4_walk_ok; auto.
+  - simpl. intros m [= <-]. auto.
+  - simpl indexable. simpl ikeyed. intros Hix Hik. split.
+    + simpl. congruence.
+    + intros i. rewrite A4_get_i_intersperse. unfold vals. rewrite A4_py_nth_map.
+      pose proof (A4_py_nth_Forall2 _ _ _ i (A4_omapM_Forall2 _ _ _ Ht)) as P.
+      destruct (py_nth o i) as [[di ei]|e], (py_nth t i) as [kv|e']; simpl in *;
+        try contradiction.
+      * eapply A4_pick_ok; eauto.
+      * congruence.
+  - intros ks Hks.
+    destruct (A4_intersperse_keys_inv _ _ _ _ _ HA Ht Hks) as (HK & -> & Hfun).
+    destruct (A4_kagrees_flags _ _ HK) as (F1 & F2 & F3).
+    simpl. repeat split; auto.
+  - intros ks Hks k.
+    destruct (A4_intersperse_keys_inv _ _ _ _ _ HA Ht Hks) as (HK & -> & Hfun).
+    rewrite A4_get_k_intersperse, Hks. simpl bind.
+    rewrite (A4_kwalk_spec k _ _ HK).
+    destruct (assoc k t) as [v|] eqn:E.
+    + apply A4_assoc_Some_In in E.
+      pose proof (A4_rows_incl _ _ _ Ht _ E) as Hc.
+      destruct (A4_In_assoc_Some _ _ _ Hc) as [v' E']. rewrite E'.
+      apply A4_assoc_Some_In in E'.
+      apply (A4_rows_complete _ _ _ Hv Ht) in E'.
+      rewrite (Hfun _ _ _ E E'). reflexivity.
+    + destruct (assoc k (concat ts)) as [v'|] eqn:E'; [|eauto].
+      apply A4_assoc_Some_In in E'.
+      apply (A4_rows_complete _ _ _ Hv Ht) in E'.
+      apply A4_assoc_None_notin in E. exfalso. apply E.
+      apply in_map_iff. exists (k, v'); auto.
 Qed.
